@@ -141,6 +141,32 @@ def run(ck):
                 check_file(ck, out2.getvalue(), las, arr, None, dict(inp, scenario="points-only copy with the reader's header"), "points-only copy of a file with EVLRs")
             except Exception as e:
                 ck.fail(f"rewriting without EVLRs raised {type(e).__name__}: {e}", inp)
+        # a chunked session left by an exception raised in the with-block after some chunks: the file is closed with a header
+        # that describes the points stored so far
+        if ci % 3 == 0:
+            ck.count("session_left_by_exception")
+            try:
+                bx = io.BytesIO()
+                parts_x = c04.rand_partition(ck.rng, n)
+                upto = ck.rng.randrange(0, len(parts_x) + 1)
+                stored = 0
+                try:
+                    with laspy.open(bx, mode="w", header=las.header, closefd=False) as wx:
+                        pos = 0
+                        for k_, pp in enumerate(parts_x):
+                            if k_ == upto:
+                                raise KeyError("the data source failed")
+                            wx.write_points(las.points[pos:pos + pp])
+                            pos += pp
+                            stored = pos
+                        if upto == len(parts_x):
+                            raise KeyError("the data source failed")
+                except KeyError:
+                    pass
+                check_file(ck, bx.getvalue(), las, arr[:stored], None, dict(inp, scenario="with-block left by an exception", chunks_written=upto, stored=stored),
+                           f"file left by a chunked session whose with-block raised after {upto} chunk(s)")
+            except Exception as e:
+                ck.fail(f"chunked session left by an exception: {type(e).__name__}: {e}", inp)
         # chunks given as scale-aware records in another scaling than the file's: the writer rescales them, and the header
         # must describe what was stored (statistics recomputed from the records read back)
         if n > 0 and ci % 2 == 0:
